@@ -117,6 +117,8 @@ def run_once(job, func, args, specns):
             if en in mro:
                 spec = sp
                 break
+        if spec is None and '*' in job.get('raises', {}):
+            spec, en = job['raises']['*'], '*'
         if spec is None:
             return 'violates', {'clause': 'no %s may escape' % type(raised).__name__,
                                 'observed': 'raised %r' % (raised,)}
